@@ -6,6 +6,8 @@ Generators
       decoding class) x every (a,b) split into concrete-prefix / symbolic-middle / concrete-suffix,
       in two representations (chunked ByteVec and a single z3 Concat term);
   (b) seeded random byte strings up to 4 KiB with PUSH-heavy tails and random splits;
+  (d) counter loops whose head is the JUMPDEST at pc 0 (taken JUMP / JUMPI to destination 0, concrete
+      and calldata-dependent trip counts), checked path by path against the reference EVM;
   (c) jump programs `PUSH2 dest; JUMP` / `PUSH1 c; PUSH2 dest; JUMPI` in front of every
       alphabet string, for every dest in range, executed by SEVM.run.
 Oracle: a linear-scan reference decoder and a 9-opcode concrete interpreter written here.
@@ -348,6 +350,35 @@ def run_jump_case(code: bytes, symbolic: bool = False):
     return fails, exps[-1][0]
 
 
+# ---------------------------------------------------------------- loops whose head is the JUMPDEST at pc 0 (mode d)
+
+def pc0_program(limit, kind, symbolic):
+    """counter loop with its head at pc 0: JUMPDEST; c = mload(0) + 1; mstore(0, c); back to pc 0 while
+    c < bound (JUMPI) / unless c == bound (JUMP); return c.  bound = limit or (calldata & 3) + 1"""
+    from vfw import asm
+
+    bound = [("PUSH", limit)] if not symbolic else [("PUSH", 3), ("PUSH", 0), "CALLDATALOAD", "AND", ("PUSH", 1), "ADD"]
+    head = [("LABEL", "top"), ("PUSH", 0), "MLOAD", ("PUSH", 1), "ADD", "DUP1", ("PUSH", 0), "MSTORE"]
+    if kind == "jumpi":
+        # stack: c ; jump back while bound > c
+        body = head + bound + ["GT", ("PUSHL", "top"), "JUMPI"]
+    else:
+        body = head + bound + ["EQ", ("PUSHL", "end"), "JUMPI", ("PUSHL", "top"), "JUMP", ("LABEL", "end")]
+    return asm.assemble(body + [("PUSH", 32), ("PUSH", 0), "RETURN"])
+
+
+def run_pc0_case(case, acc=None):
+    from props import c01_sound as c01
+
+    code = pc0_program(case["limit"], case["kind"], case["symbolic"])
+    assert code[0] == 0x5B
+    sub = Acc()
+    fails = c01.run_case({"kind": "raw", "raw": code.hex(), "seed": case.get("seed", 1)}, sub)
+    if acc is not None:
+        acc.case(case, True, klass=["pc0-loop", case["kind"], "symbolic-bound" if case["symbolic"] else "concrete-bound"])
+    return [(["pc0-loop"] + list(b), d) for b, d in fails]
+
+
 # ---------------------------------------------------------------- shards
 
 def shards(tier):
@@ -360,6 +391,7 @@ def shards(tier):
         out.append({"mode": "rand", "n": 300 if tier == "quick" else 3000, "k": k})
     for k in range(8):
         out.append({"mode": "jump", "L": 3 if tier == "quick" else 4, "part": k, "of": 8})
+    out.append({"mode": "pc0"})
     return out
 
 
@@ -422,6 +454,13 @@ def run_shard(spec, seed, tier):
                 # full-size check is slow in pure Python for symbolic reads: keep concrete-only
                 a = b = 0
             _do_case(acc, code, a, b, "chunks" if rng.random() < 0.8 or n > 200 else "expr")
+    elif mode == "pc0":
+        for kind in ("jumpi", "jump"):
+            for symbolic in (False, True):
+                for limit in (1, 2, 3):
+                    case = {"mode": "pc0", "kind": kind, "symbolic": symbolic, "limit": limit, "seed": seed % 1000}
+                    for bucket, detail in run_pc0_case(case, acc):
+                        acc.fail(bucket, case, detail)
     elif mode == "jump":
         L = spec["L"]
         idx = 0
@@ -458,6 +497,8 @@ def run_shard(spec, seed, tier):
 
 
 def replay(case):
+    if case.get("mode") == "pc0":
+        return [{"bucket": b, "detail": d} for b, d in run_pc0_case(case)]
     if case.get("mode") == "jump":
         fails, _ = run_jump_case(bytes.fromhex(case["code"]), symbolic=bool(case.get("symbolic")))
         fails = fails or []
@@ -468,7 +509,7 @@ def replay(case):
 
 def shrink(case, same):
     """drop bytes while the same bucket keeps failing"""
-    if case.get("mode") == "jump":
+    if case.get("mode") in ("jump", "pc0"):
         return case
     code = bytes.fromhex(case["code"])
     a, b = case["a"], case["b"]
